@@ -178,7 +178,7 @@ func c0103Run(prop string, oracles []procOracle, nontriv func(*PDrv) bool) func(
 			fps = []int{1, 2, 3}
 			L, Ld, D = 15, 12, 2
 		}
-		r.Rule = fmt.Sprintf("every event string over {1=motion frame, 0=still frame} of length %d (both entry points ProcessFrame and Process), and every string of length %d with at most %d deviations from {B=bad frame, R=camera reset, 1d=disk check refused, 1s=file creation refused, 1c5=window closed}, plus an explicit-state search to a FIXPOINT of canonical processor states over the same alphabet (<=2 deviations per history) - covering streams of any length - for every configuration of the lattice fps x preview-secs{0,1,2} x trigger-frames{0..3} x min-secs{0,1,2} x max-secs{min..min+2} with ring capacity >= 1; motion bits are produced through the real detector (beacon pixel), observed MotionDetected callbacks are the ground truth. Non-trivial = execution with at least one recording (two for C01).", L, Ld, D)
+		r.Rule = fmt.Sprintf("every event string over {1=motion frame, 0=still frame} of length %d (both entry points ProcessFrame and Process), and every string of length %d with at most %d deviations from {B=bad frame, R=camera reset, 1d=disk check refused, 1s=file creation refused, 1c5=window closed}, plus an explicit-state search to a FIXPOINT of canonical processor states over the same alphabet (<=2 deviations per history) - covering streams of any length - for every configuration of the lattice fps x preview-secs{0,1,2} x trigger-frames{0..3} x min-secs{0,1,2} x max-secs{min..min+2} with ring capacity >= 1; motion bits are produced through the real detector (beacon pixel); the oracles read motion from the observed MotionDetected callbacks, which C03 and C04 tie to the generated frame content. Non-trivial = execution with at least one recording (two for C01).", L, Ld, D)
 		r.Bounds["fps"] = fps
 		r.Bounds["depth_plain"] = L
 		r.Bounds["depth_with_deviations"] = Ld
@@ -327,7 +327,7 @@ func c03Run(r *ev.Run) {
 	r.Rule = fmt.Sprintf("every motion bit-string (events {1=motion frame, 0=still frame}, real detector) of length min(%d, cap+2*maxF+3) for every configuration of the C03 lattice (fps 1..3, min-secs 0..4(5), max-secs up to min+4(5), preview-secs {0,1}, trigger-frames {0,1,2}); plus the general recorder lattice with <=1 deviation (bad frame, reset, refused starts) to depth 10(12). and an explicit-state search to a FIXPOINT over {1,0} for every configuration of the C03 lattice (motion patterns of any length, incl. configurations whose two-recording horizon exceeds the tree depth). Oracle: per recording, counted from the trigger frame, stop exactly at the first offset p >= min(q+minF-1, maxF) with q the latest motion offset. Non-trivial = execution with at least one recording.", Lmax)
 	r.Bounds["depth_cap"] = Lmax
 	r.Bounds["c03_lattice_configurations"] = len(cfgs)
-	r.Assumptions = []string{"observed MotionDetected callbacks are the ground truth for motion", "configurations whose cap+2*maxF+3 exceeds the depth cap are covered to the cap only (reported per run in depth_limited_configurations)"}
+	r.Assumptions = []string{"motion per frame is read from the observed MotionDetected callbacks; C03 and C04 additionally require those callbacks to agree with the generated frame content (beacon pixel toggled or not)", "configurations whose cap+2*maxF+3 exceeds the depth cap are covered to the cap only (reported per run in depth_limited_configurations)"}
 	var jobs []procJob
 	limited := 0
 	for _, c := range cfgs {
